@@ -175,6 +175,10 @@ func (group *Group) AddRtmpPullSession(session *rtmp.PullSession) error {
 		Log.Errorf("[%s] in stream already exist. wanna add=%s", group.UniqueKey, session.UniqueKey())
 		return base.ErrDupInStream
 	}
+	if !group.isPullSessionWanted(session) {
+		Log.Warnf("[%s] relay pull stopped while connecting. wanna add=%s", group.UniqueKey, session.UniqueKey())
+		return errRelayPullStopped
+	}
 
 	Log.Debugf("[%s] [%s] add PullSession into group.", group.UniqueKey, session.UniqueKey())
 
@@ -210,6 +214,10 @@ func (group *Group) AddRtspPullSession(session *rtsp.PullSession) error {
 	if group.hasInSession() {
 		Log.Errorf("[%s] in stream already exist. wanna add=%s", group.UniqueKey, session.UniqueKey())
 		return base.ErrDupInStream
+	}
+	if !group.isPullSessionWanted(session) {
+		Log.Warnf("[%s] relay pull stopped while connecting. wanna add=%s", group.UniqueKey, session.UniqueKey())
+		return errRelayPullStopped
 	}
 
 	Log.Debugf("[%s] [%s] add PullSession into group.", group.UniqueKey, session.UniqueKey())
